@@ -621,6 +621,9 @@ class AckMonitor(Monitor):
         self.challenges = {}  # endpoint -> {PATH_CHALLENGE data: address it was sent to}
         self.path_changes = 0
         self.exempt_path_switched = 0
+        self.owed_on_unvalidated_path_with_budget = 0
+        self.addr_rx = {}
+        self.addr_tx = {}
         self.max_ranges = 0  # largest number of ranges seen in one ACK frame
         self.judged_next = set()  # (ep, space, pn) of Initial/Handshake obligations already compared with what was opened
         self.exempt_not_opened = 0
@@ -662,7 +665,9 @@ class AckMonitor(Monitor):
         now_active = self.active_addr.get(ep.name)
         if now_active != before:
             self.path_changes += 1
-        if now_active is not None and now_active not in valid:
+        if now_active is not None and now_active not in valid and self._budget(ep.name, now_active) < self.ROOM_FOR_AN_ACK:
+            # (with room for an ACK-bearing packet in the budget the acknowledgement is owed in time on the new path too:
+            # ACK frames are not congestion controlled and nothing else has to go first)
             for ob in self.obligations:
                 if not ob["met"] and ob["ep"] == ep.name and t <= ob["deadline"]:
                     ob["met"] = True
@@ -700,9 +705,16 @@ class AckMonitor(Monitor):
             pairs.setdefault(id(pair), {tls.Epoch.INITIAL: "I", tls.Epoch.HANDSHAKE: "H"}.get(epoch, "A"))
         return {(pairs[id(pair)], pn) for pair, pn in _OPENED if id(pair) in pairs}
 
+    ROOM_FOR_AN_ACK = 200  # bytes of anti-amplification budget with which an ACK-bearing packet certainly fits
+
+    def _budget(self, ep_name, addr):
+        """the monitor's own anti-amplification ledger for one address: 3 x received - sent"""
+        return 3 * self.addr_rx.get((ep_name, addr), 0) - self.addr_tx.get((ep_name, addr), 0)
+
     def on_deliver(self, ep, rec, from_addr, t, altered=False):
         self._install_open_watch()
         del _OPENED[:]
+        self.addr_rx[(ep.name, from_addr)] = self.addr_rx.get((ep.name, from_addr), 0) + len(rec.data)
         if altered:
             # packets of a corrupted copy that do not contain the flipped byte are still authentic
             for v in self.sim.views_possibly_intact(rec, altered):
@@ -732,7 +744,10 @@ class AckMonitor(Monitor):
                 closing = ep.conn._state.name in ("CLOSING", "DRAINING", "TERMINATED") or ep.conn._close_pending
                 # the monitor's own path model (see _track_paths), not the connection's: the server's acknowledgements are
                 # only owed in time while the address it has to use is one that was validated
-                path_ok = ep.name != "server" or self.active_addr.get(ep.name) is None or self.active_addr[ep.name] in self.valid_addrs.get(ep.name, ())
+                path_ok = (ep.name != "server" or self.active_addr.get(ep.name) is None or self.active_addr[ep.name] in self.valid_addrs.get(ep.name, ())
+                           or self._budget(ep.name, self.active_addr[ep.name]) >= self.ROOM_FOR_AN_ACK)
+                if path_ok and ep.name == "server" and self.active_addr.get(ep.name) is not None and self.active_addr[ep.name] not in self.valid_addrs.get(ep.name, ()):
+                    self.owed_on_unvalidated_path_with_budget += 1
                 # (a 0-RTT packet that arrives *after* the handshake completed is an application-space packet like any
                 # other: if it carries the highest number so far it is owed a timely acknowledgement)
                 # (a packet from another address than the active path's: if it makes the endpoint move to that (unvalidated)
@@ -789,6 +804,15 @@ class AckMonitor(Monitor):
                     self.opened_and_owed += 1
 
     def on_datagram_out(self, ep, rec, t):
+        self.addr_tx[(ep.name, rec.addr)] = self.addr_tx.get((ep.name, rec.addr), 0) + len(rec.data)
+        if ep.name == "server":
+            act = self.active_addr.get(ep.name)
+            if act is not None and act not in self.valid_addrs.get(ep.name, ()) and self._budget(ep.name, act) < self.ROOM_FOR_AN_ACK:
+                # the endpoint has meanwhile used its budget for the unvalidated address (on data, legitimately): an
+                # acknowledgement that becomes due now cannot be sent until more arrives from there
+                for ob in self.obligations:
+                    if not ob["met"] and ob["ep"] == ep.name and t <= ob["deadline"]:
+                        ob["budget_gone"] = True
         for v in rec.views or []:
             if v.error or v.pn is None:
                 continue
@@ -822,6 +846,10 @@ class AckMonitor(Monitor):
                 for ob in self.obligations:
                     if not ob["met"] and ob["ep"] == ep.name and ob["pn"] in covered:
                         ob["met"] = True
+                        if t > ob["deadline"] and ob.get("budget_gone"):
+                            self.exempt += 1
+                            self.exempt_budget_spent = getattr(self, "exempt_budget_spent", 0) + 1
+                            continue
                         if t > ob["deadline"]:
                             raise Violation("ack:late", "%s acknowledged 1-RTT packet %d after %.1f ms (received t=%.4f, ack sent t=%.4f; advertised max_ack_delay 25 ms, timers fired on time)" % (ep.name, ob["pn"], (t - ob["t"]) * 1000, ob["t"], t), {"t": t})
                         self.timeliness_met += 1
@@ -845,6 +873,9 @@ class AckMonitor(Monitor):
                 continue
             ep = sim.ep(ob["ep"])
             if ep is None or ep.terminated or ep.conn._state.name != "CONNECTED" or ep.conn._close_pending:
+                self.exempt += 1
+                continue
+            if ob.get("budget_gone"):
                 self.exempt += 1
                 continue
             if sim.now > ob["deadline"] + 0.05 and sim.stopped_reason != "step-cap":
